@@ -67,7 +67,7 @@ pub fn observer_for(id: &str) -> Option<fn() -> Box<dyn Obs>> {
         "C11" => || b(C11::new()),
         "C12" => || b(C12),
         "C13" => || b(C13),
-        "C14" => || b(C14),
+        "C14" => || b(C14::default()),
         "C15" => || b(C15),
         "C19" => || b(C19),
         _ => return None,
